@@ -18,7 +18,7 @@ MANIFEST = {
 }
 THEOREMS = ['C02.capSites_table', 'C02.cap_growth_entitled', 'C02.no_new_owner_step', 'C02.not_granted_owner', 'C02.reload_caps_sub',
             'C02.no_new_owner_reload', 'C02.reload_preserves_inv', 'C02.reloadNoFlush_preserves_inv', 'C02.step_preserves_inv', 'C02.history_safe',
-            'C02.step_preserves_fileOk', 'C02.reloadNoFlush_caps_sub', 'C02.no_new_owner_reloadNoFlush', 'C02.reloadUsersFrom_file', 'C02.flushReload_fileOk',
+            'C02.step_preserves_fileOk', 'C02.reloadNoFlush_caps_sub', 'C02.no_new_owner_reloadNoFlush', 'C02.reloadUsersFrom_file', 'C02.reloadNoFlush_owners', 'C02.step_ownInv', 'C02.history_owner_safe', 'C02.flushReload_fileOk',
             'C02.reloadNoFlush_fileOk', 'C02.step_safe_all', 'C02.history_safe_all', 'C02.st0_inv3',
             'C02.st0_inv', 'C02.cfg0_hashSafe']
 TRUSTED = ['Lean 4.33.0 kernel; axioms ⊆ {propext, Classical.choice, Quot.sound}',
